@@ -680,12 +680,14 @@ def lastPaused (g : Nat) : List IEv → Bool
   | [] => false
   | .tPause g' :: l => if g' = g then true else lastPaused g l
   | .tResume g' :: l => if g' = g then false else lastPaused g l
+  | .exc _ :: l => lastPaused g l
 
 /-- no transport is told the same thing twice in a row (a new transport counts as resumed) -/
 def altOK : List IEv → Bool
   | [] => true
   | .tPause g :: l => !lastPaused g l && altOK l
   | .tResume g :: l => lastPaused g l && altOK l
+  | .exc _ :: l => altOK l
 
 inductive IReach : Inb → Prop
   | init : IReach {}
@@ -794,6 +796,18 @@ theorem iinv_step (s : Inb) (op : IOp) (hp : dcpForwardsPause = true) (hr : dcpF
       · intro g hg'; simp only at hg'; rw [hg] at hg'; cases hg'
   | resume sc => exact iinv_discard s sc hr h
   | stopProducing sc => exact iinv_discard s sc hr h
+  | opn sc =>
+    simp only [istep]
+    split
+    · exact ⟨fun g hg => by simpa [lastPaused] using h.exact g hg, by simpa [altOK] using h.alt,
+        fun g hg => by simpa [lastPaused] using h.fresh g hg, h.connLe⟩
+    · exact ⟨h.exact, h.alt, h.fresh, h.connLe⟩
+  | close sc =>
+    simp only [istep]
+    split
+    · exact ⟨h.exact, h.alt, h.fresh, h.connLe⟩
+    · exact ⟨fun g hg => by simpa [lastPaused] using h.exact g hg, by simpa [altOK] using h.alt,
+        fun g hg => by simpa [lastPaused] using h.fresh g hg, h.connLe⟩
 
 theorem iinit_inv : IInv {} :=
   ⟨(by intro g hg; cases hg), rfl, (by intro g _; rfl), (by intro g hg; cases hg)⟩
@@ -802,6 +816,77 @@ theorem ireach_inv (hp : dcpForwardsPause = true) (hr : dcpForwardsResume = true
   induction h with
   | init => exact iinit_inv
   | step op _ ih => exact iinv_step _ op hp hr ih
+
+/-! ## Inbound: the pause requests of subchannels that are still open -/
+
+/-- ghost: the subchannels whose application has asked for a pause and has neither resumed,
+    stopped, nor been closed since (a closed subchannel's application no longer counts) -/
+def wantStep (s : Inb) (w : List Nat) : IOp → List Nat
+  | .pause sc => sAdd sc w
+  | .resume sc => sDel sc w
+  | .stopProducing sc => sDel sc w
+  | .close sc => if sc ∈ s.openSc then sDel sc w else w
+  | _ => w
+
+inductive IReachW : Inb → List Nat → Prop
+  | init : IReachW {} []
+  | step {s : Inb} {w : List Nat} (op : IOp) : IReachW s w → IReachW (istep s op) (wantStep s w op)
+
+theorem IReachW.reach {s : Inb} {w : List Nat} (h : IReachW s w) : IReach s := by
+  induction h with
+  | init => exact IReach.init
+  | step op _ ih => exact IReach.step op ih
+
+theorem discard_pausedSc (s : Inb) (sc : Nat) : (s.discard sc).pausedSc = sDel sc s.pausedSc := by
+  unfold Inb.discard
+  split
+  · split
+    · unfold Inb.connResume; split <;> rfl
+    · rfl
+  · rfl
+
+theorem istep_pausedSc (s : Inb) (op : IOp) :
+    (istep s op).pausedSc = match op with
+      | .pause sc => sAdd sc s.pausedSc
+      | .resume sc => sDel sc s.pausedSc
+      | .stopProducing sc => sDel sc s.pausedSc
+      | _ => s.pausedSc := by
+  cases op with
+  | use => simp only [istep]; split
+           · unfold Inb.connPause; split <;> rfl
+           · rfl
+  | stop => rfl
+  | pause sc =>
+    simp only [istep]; split
+    · split
+      · unfold Inb.connPause; split <;> rfl
+      · rfl
+    · rfl
+  | resume sc => exact discard_pausedSc s sc
+  | stopProducing sc => exact discard_pausedSc s sc
+  | opn sc => simp only [istep]; split <;> rfl
+  | close sc => simp only [istep]; split <;> rfl
+
+theorem want_subset {s : Inb} {w : List Nat} (h : IReachW s w) : ∀ sc, sc ∈ w → sc ∈ s.pausedSc := by
+  induction h with
+  | init => intro sc hsc; cases hsc
+  | step op _ ih =>
+    intro sc hsc
+    rw [istep_pausedSc]
+    cases op with
+    | use => exact ih sc hsc
+    | stop => exact ih sc hsc
+    | pause x => simp only [wantStep, mem_sAdd] at hsc ⊢; rcases hsc with h | h
+                 · exact Or.inl h
+                 · exact Or.inr (ih sc h)
+    | resume x => simp only [wantStep, mem_sDel] at hsc ⊢; exact ⟨ih sc hsc.1, hsc.2⟩
+    | stopProducing x => simp only [wantStep, mem_sDel] at hsc ⊢; exact ⟨ih sc hsc.1, hsc.2⟩
+    | opn x => exact ih sc hsc
+    | close x =>
+      simp only [wantStep] at hsc
+      split at hsc
+      · exact ih sc (mem_sDel.1 hsc).1
+      · exact ih sc hsc
 
 /-! ## building concrete reachable configurations (for the non-vacuity examples) -/
 
